@@ -164,6 +164,31 @@ def repeat_next_to_colourful(rng, vars_):
              B(rng.choice(["and", "or"]), colourful(), second) if rng.random() < 0.6 else second)
 
 
+def nested_same_label(rng, vars_):
+    """Batches in which a sub-formula over the INNER variable of two nested quantifiers is shared between a stack whose
+    quantifiers carry the SAME domain label and a stack where only the inner one is restricted (or the outer one by
+    another label); the outer variable is used, so that a restriction leaking from one stack into the other shows."""
+    bg = gen.FormulaGen(rng, vars_, wild=["p"], p_wild=0.2, p_quant=0.0, quant=[], p_jump=0.0, unary=["not", "EX", "AX", "EF", "AG"], binary=["and", "or", "EU"])
+    body = U(rng.choice(["EX", "AX", "EF"]), V("y")) if rng.random() < 0.5 else bg.gen(rng.randint(2, 4), scope=["y"])
+    for _ in range(10):
+        if "y" in gen.free_vars(body):
+            break
+        body = bg.gen(rng.randint(2, 4), scope=["y"])
+    q2 = rng.choice(["exists", "bind", "forall"])
+
+    def stack(outer_dom):
+        inner = H(q2, "y", copy.deepcopy(body), "d")
+        use_x = rng.choice([V("x"), U("not", V("x")), U("EX", V("x")), H("jump", "x", P(rng.choice(vars_)))])
+        return H(rng.choice(["bind", "exists", "forall"]), "x", B(rng.choice(["and", "or"]), inner, use_x), outer_dom)
+    same, other = stack("d"), stack(rng.choice(["", "", "e"]))
+    batch = [same, other]
+    if rng.random() < 0.3:
+        batch.reverse()
+    if rng.random() < 0.4:
+        batch.append(B(rng.choice(["and", "or"]), copy.deepcopy(batch[0]), copy.deepcopy(batch[1])))
+    return batch
+
+
 def until_over_literals(rng, vars_):
     """phi U psi with phi, psi small Boolean combinations of literals whose supports differ: paths that
     must LEAVE phi through one particular variable to reach psi (and variants under EX / binders)."""
@@ -428,6 +453,9 @@ def gen_c04(rng, probe, tier):
                 batch = [permuted_roles(rng, base, 2) for _ in range(rng.randint(1, 2))]
                 if rng.random() < 0.5:
                     batch.append(fg.gen(rng.randint(2, 6)))
+            elif j % 8 in (4, 6):
+                ext = True
+                batch = nested_same_label(rng, m["vars"])
             elif j % 8 == 0:
                 # a closed sub-formula next to a colour-dependent conjunct and again on its own (in the formula and in the batch)
                 f0 = repeat_next_to_colourful(rng, m["vars"])
